@@ -55,6 +55,9 @@ CANON = ['-', '0', '1', '2', '3', '1', '-', '6', 'g']     # 0 gp, 1 parent, 2 re
 
 NOTIF_METHODS = {'event::SetNextNotification', 'event::SetSuppressedNotificationTypes', 'event::UpdateLastNotifiedStatePerUser',
                  'event::ClearLastNotifiedStatePerUser', 'event::NotificationSentUser', 'event::NotificationSentToAllUsers'}
+PLAIN_SETTERS = {'event::SetNextCheck', 'event::SetLastCheckStarted', 'event::SetNextNotification', 'event::SetForceNextCheck',
+                 'event::SetForceNextNotification', 'event::SetAcknowledgement', 'event::ClearAcknowledgement', 'event::UpdateExecutions',
+                 'event::SetRemovalInfo'}
 CK_BOOKKEEPING = {'event::SetStateBeforeSuppression', 'event::SetSuppressedNotifications', 'event::SendNotifications'}
 
 
@@ -100,6 +103,8 @@ def msg(F, recv, snd, method, obj, auth=1, ident='ep', claim='-', ts='none', ac=
         else:
             oz, ckz = _zs(ckzone), _zs(ckzone)
         rel = ' ckz=%s hz=%s' % (ckz, _zs(h))
+        if method in PLAIN_SETTERS:
+            rel += ' chz=1'      # observe WHICH objects changed (plain setters only: no follow-up processing on the receiver)
     elif obj == 'nz':
         tag, oz = 'nz', '-'
     elif isinstance(obj, tuple):
@@ -175,8 +180,9 @@ def _cross_variants(rnd, frac):
             out.append((m, dict(ck=ck)))
     for nt in ('n', 'hn'):
         out.append(('event::SetNextNotification', dict(nt=nt, ck='s' if nt == 'n' else 'h')))
-    for ro in 'cd':
-        out.append(('event::SetRemovalInfo', dict(ro=ro)))
+    for ro in 'cdx':       # x: an object_type the handler does not know
+        if ro != 'x' or rnd.random() < 0.3:
+            out.append(('event::SetRemovalInfo', dict(ro=ro)))
     for m in sorted(NOTIF_METHODS - {'event::SetNextNotification'}):
         for nt in ('n', 'hn'):
             if rnd.random() < frac:
